@@ -52,7 +52,18 @@ RULE = ("Every run is driven per INVOCATION of the real main(): the operator mod
         "fixed=1); async (orders that violate data dependence: correspondence only, outside the property's quantifier); "
         "examine (random trees with gaps, unsorted / two-digit indices, missing markers, empty iteration directories "
         "against examine_output_dir_to_determine_current_iteration); crash_free (closed-form ideal run against the real "
-        "uninterrupted run: ONE invocation = n launches + one returning call / exactly batch-size launches, then main() returns).  Non-trivial: at least one crash or a non-empty tree; distinct by case description.")
+        "uninterrupted run: ONE invocation = n launches + one returning call / exactly batch-size launches, then main() returns); "
+        "validate_initial (validate_initial_output_dir_and_get_result_files_as_dict on a job directory holding EVERY subset of the seven published "
+        "files - each required file missing in turn and in every combination - and with required files lying one directory level too high; "
+        "compared with Orchestrate.validate_initial and judged directly: the dict iff test.screen.h5, training.screen.h5 and screen_metadata.json exist, "
+        "naming this directory's own files and carrying its metadata; None iff the training screen or the metadata is missing; IndexError iff only the test screen is); "
+        "get_args (the real get_args() on command lines built from plans - every option given / one missing / repeated, any order, the operator's extra words in "
+        "between, bad values: not an int, not one of the choices, an option string without value - against Orchestrate.parse_known_args on the option table, "
+        "and judged from the plan: which namespace, which remaining words, --batch-size defaults to 1, accepted iff every required option has a good value; "
+        "spellings the model does not represent are run and not compared); "
+        "paths (the five path helpers of the script where /repo keeps it and of copies in scratch checkouts of several depths and directory names, loaded "
+        "through the real path, a symbolic link to the directory or the file, a path with '..' - against the model on the resolved file's components, and judged "
+        "directly: the repository root holds the script at <d1>/<d2>/<file>, main.nf and nextflow.config lie directly in it and exist in /repo).  Non-trivial: at least one crash or a non-empty tree; distinct by case description.")
 THEOREMS = {
     "C19_resume_correct": "marker last + repaired examine (or batch size 1): after EVERY crash schedule, in both modes, the completed steps with the "
                           "commands that produced them and their recorded selections are exactly the first k steps of the uninterrupted run (retrospective: k <= n_plates)",
@@ -94,6 +105,40 @@ THEOREMS = {
     "C19_model_is_source_get_test_screen_from_job_output": "the whole helper (called by the translated retrospective step): it globs for training.screen.h5 = the model's has_training / SFile s KTraining",
     "C19_model_is_source_get_theta_and_dist_chunks": "the whole helper (called by both translated steps): ValueError unless thetas and distance chunks are both present = has_thetas_dist / AFail 2",
     "C19_model_is_source_get_selected_plates": "the whole helper (called by both translated steps): the contents of the selected_plate files of the iteration, None when there are none = selected_plates",
+    "C19_model_is_source_validate_initial_output_dir": "the WHOLE function validate_initial_output_dir_and_get_result_files_as_dict, re-translated on every run: for every job directory it equals the model's "
+                                                       "validate_initial - None when training.screen.h5 or screen_metadata.json is missing, IndexError (test_screen_glob[0]) when only test.screen.h5 is, "
+                                                       "else the dict {test_screen, training_screen, screen_metadata}",
+    "C19_model_is_source_validate_initial_accepts_iff": "the translated function returns the dict EXACTLY when the three files of Orchestrate.initial_required (test.screen.h5, training.screen.h5, "
+                                                        "screen_metadata.json) all exist; the dict names that directory's own test / training screen and carries the metadata stored there",
+    "C19_model_is_source_validate_initial_raises_iff": "the only exception of the translated function is the IndexError, raised exactly when training screen and metadata exist and the test screen does not, before anything is touched",
+    "C19_model_is_source_validate_initial_none_iff": "the translated function returns None exactly when the training screen or the metadata file is missing (whatever else exists)",
+    "C19_model_is_source_validate_initial_never_names": "the translated function never raises an error that names a directory for the operator to delete",
+    "C19_model_is_source_validate_initial_complete_run": "the model's notion of a complete initial step: a run of the initial workflow that complete_run counts as complete (all files `expected` of LInit "
+                                                         "published; the three required ones are among them) leaves a directory the translated function accepts, with the metadata that is there",
+    "C19_model_is_source_validate_initial_on_reachable_trees": "on EVERY tree the retrospective script reaches (any crash schedule, hypotheses of C19_resume_correct) a job directory iter_0/plate_0 that carries "
+                                                               "the completion marker is accepted by the translated function: dict with its test / training screen and n - 1 unobserved plates; never None, never the IndexError",
+    "C19_model_is_source_get_args": "the WHOLE function get_args(), re-translated on every run: the option table its four add_argument calls build (option string, type= / choices=, required=, "
+                                    "default= read from each call's own arguments) is Orchestrate.orch_options and the function is the model of argparse on it, for every command line",
+    "C19_model_is_source_get_args_gives_main_args": "every args.<x> the translated main() reads (mode, batch_size, outdir, screen) is an attribute of EVERY namespace the translated get_args returns, with the "
+                                                    "type the model of main() assumes: mode one of the two names main() dispatches on, batch_size an int (1 when --batch-size is not given), outdir and "
+                                                    "screen strings; the namespace has exactly the four attributes argparse derives from the option strings",
+    "C19_model_is_source_get_args_remaining": "each remaining argument get_args hands on (extra_args for nextflow) stood on the command line and is none of the script's own option strings",
+    "C19_model_is_source_get_args_then_main": "get_args composed with main(): whatever the command line, when the translated get_args returns, the record main() reads off the namespace has a mode md "
+                                              "main() dispatches on, and the translated main() (fuel > schedule length) IS the model's invocation in mode md with the command line's batch size (default 1) - "
+                                              "the hypothesis `a_mode argv = modename_of md` of C19_model_is_source_main* is discharged",
+    "C19_model_is_source_get_args_mode_known": "the `else: raise ValueError('Unknown mode')` of main() cannot be reached from a command line",
+    "C19_model_is_source_get_script_location": "the WHOLE helper, re-translated on every run, for every __file__: abspath(dirname(realpath(__file__)))",
+    "C19_model_is_source_get_nextflow_dir": "the same for get_nextflow_dir = abspath(join(get_script_location(), '..')), calling the translated get_script_location",
+    "C19_model_is_source_get_base_config": "the same for get_base_config = abspath(join(get_nextflow_dir(), '..', 'nextflow.config'))",
+    "C19_model_is_source_get_repository_root": "the same for get_repository_root = abspath(join(get_script_location(), '..', '..'))",
+    "C19_model_is_source_get_main_nf_file": "the same for get_main_nf_file = abspath(join(get_repository_root(), 'main.nf'))",
+    "C19_model_is_source_paths_in_checkout": "for a script at root/nextflow/scripts/batchie.py (root any path as realpath returns one) the translated helpers give root/nextflow/scripts, root/nextflow, "
+                                             "root/nextflow.config, root and root/main.nf",
+    "C19_model_is_source_run_initial_plate_closed": "run_initial_plate re-translated CLOSED over the translated path helpers (get_main_nf_file() / get_repository_root() are their translations, a path on the "
+                                                    "command line is WMainNf exactly when it is root/main.nf): for a script in the checkout at root it builds the launch LInit, as the open translation does",
+    "C19_model_is_source_run_first_batch_plate_closed": "the same for run_first_batch_plate = LFirst",
+    "C19_model_is_source_run_first_prospective_batch_plate_closed": "the same for run_first_prospective_batch_plate = LProsp",
+    "C19_model_is_source_run_subsequent_batch_plate_closed": "the same for run_subsequent_batch_plate = LNext",
     "C19_model_is_source_run_initial_plate": "the WHOLE builder run_initial_plate, re-translated on every run and CALLED by the translated run_next_retrospective_step: the command line it builds (list of words + extra args), read "
                                              "the way main.nf reads it, is the launch LInit screen for job directory output_dir; a None screen is a TypeError before anything is started",
     "C19_model_is_source_run_first_batch_plate": "the same for run_first_batch_plate: --training_screen gets training_screen, --test_screen gets test_screen, --initialize false = LFirst training test",
@@ -168,7 +213,7 @@ EXPLANATION = ("Model: Model/Orchestrate.v (calls: attempt/script_run; invocatio
                "errors carry the world main() leaves behind; translator keys added: monad['while'] - a `while True` under a non-default monad, on explicit fuel -, tail_dup_raise - the statements after an `if` one of whose "
                "branches may raise are the tail of both branches) and proved equal to Orchestrate.invocation for sufficient fuel; the fuel hypothesis is discharged on reachable trees (n + 1 resp. batch-size "
                "iterations).  The if/elif/else on args.mode, the assignment of run_next, the loop, the call's keyword arguments (typed: output directory, screen, extra args, batch size), the negated test and the break come from "
-               "the translation.  TRUSTED primitives of main(): get_args() = the parsed arguments (argv, extra) [get_args itself is not translated; argparse's choices = the two mode strings]; args.mode / args.batch_size = "
+               "the translation.  TRUSTED primitives of main(): get_args() = the parsed arguments (argv, extra) [get_args is translated on its own, see GET_ARGS below, and C19_model_is_source_get_args_then_main composes the two: the namespace it returns, read as this record, has one of the two mode names]; args.mode / args.batch_size = "
                "fields of argv; the literals 'retrospective' / 'prospective' = the two mode names; the NAMES run_next_retrospective_step / run_next_prospective_step = the translated functions of that name; "
                "os.path.abspath(args.outdir) = THE output directory of the world, os.path.abspath(args.screen) = the operator's screen of this invocation (SInput); and world_call = what a call "
                "run_next(output_dir=, input_screen=, extra_args=, batch_size=) is in a world with crashes: the translated function is applied to the tree as it is now, its result (value + actions / exception after "
@@ -178,7 +223,30 @@ EXPLANATION = ("Model: Model/Orchestrate.v (calls: attempt/script_run; invocatio
                "component, s.split('_') = the pieces between underscores, l[1] = second piece or IndexError, int(s) = the value of an unsigned ASCII decimal numeral (anything else: ValueError - Python's int also accepts a sign, "
                "surrounding white space and non-ASCII digits, which the model does not represent); proved to return i on '.../<prefix>_<numeral of i>', i.e. the index primitives iter_index / plate_index that examine's "
                "configuration gives to dir_sort_key(x) on the model value of 'iter_<i>' / 'plate_<j>' (i, j >= 0; a directory named e.g. iter_-1 or iter_1_old is outside the model).  examine itself still uses the index primitive "
-               "(its paths are model values, not names).  NOT translated: get_args, the path helpers get_main_nf_file / get_repository_root / get_script_location / get_nextflow_dir / get_base_config.")
+               "(its paths are model values, not names).  VALIDATE_INITIAL (C19_model_is_source_validate_initial_*): validate_initial_output_dir_and_get_result_files_as_dict (defined by the script, called by none of its functions) is re-translated as a "
+               "whole function (configuration C19_VALIDATE_INITIAL -> Generated/SrcOrchInit.v; proofs in a file of their own, Proofs/C19Source_ValidateInitial.v) over a globbed job directory ((i, j), its files).  From the "
+               "translation: the `or` of the two emptiness tests and the None return, the ORDER of the three [0] reads (the test screen first: that read is the IndexError), the with / json.load, which variable sits "
+               "under which key of the returned dict.  TRUSTED primitives: list(glob.glob(os.path.join(dir, '*', NAME))) for NAME = test.screen.h5 / training.screen.h5 = the one-or-no file of that kind "
+               "(glob_in_plate), for screen_metadata.json = [its n_unobserved_plates] or [] (glob_meta); len; l[0] (IndexError on []); open(path) / json.load = the value the file holds; the dict literal "
+               "{'test_screen': a, 'training_screen': b, 'screen_metadata': c} = the record mkif a b c.  The harness exercises the real function on every subset of the seven files (each required file missing "
+               "in turn), also with files one directory level too high, against the model (wire op 5) and against the specification written out in the predicate.  "
+               "GET_ARGS (C19_model_is_source_get_args*): get_args() is re-translated as a whole function (configuration C19_GET_ARGS -> Generated/SrcOrchArgs.v; proofs Proofs/C19Source_GetArgs.v and, composed with main(), "
+               "Proofs/C19Source_GetArgsMain.v).  The parser object is its option table; from the translation: the four add_argument calls in their order and, for each, the option string, type=str / type=int / "
+               "choices=[...], required=, default= as the call's own arguments give them (typed holes: another keyword such as dest= / nargs= / action=, a default that is not an int, a computed value are refused), "
+               "the tuple assignment and the return.  TRUSTED primitives: argparse.ArgumentParser(description=..) = the empty table; the names str / int as type= ; help= texts are evaluated and not used; "
+               "parser.parse_known_args() = Orchestrate.parse_known_args on the table built so far and sys.argv[1:] - the model of argparse: attribute name = option string without '--' and with '-' as '_'; words "
+               "read from the left; a declared option string takes the next word as its value (none, or one starting with '-': error), int = an unsigned ASCII decimal numeral, choices = membership, a later "
+               "occurrence overrides; any other word goes to the remaining arguments in order; defaults / None for options not given; a missing required option is an error; every argparse error = SystemExit(2) "
+               "(why 64).  NOT represented (the model answers 90 and the harness does not compare): --opt=value, abbreviations (incl. '--' and '-'), -h / --help, words starting with '-' and a digit or '.', words "
+               "containing a space after a '-', integers in the other forms int() accepts (sign, '_', white space, non-ASCII digits).  The differential runs the real argparse against this model on several hundred "
+               "command lines.  PATH HELPERS (C19_model_is_source_get_script_location .. _paths_in_checkout): the five helpers are re-translated (configurations C19_PATH_* -> Generated/SrcOrchPaths.v; proofs "
+               "Proofs/C19Source_Paths.v) over absolute paths as lists of components; from the translation: the string literals, the nesting of the calls, which helper builds on which (calls of the translated "
+               "helpers).  TRUSTED primitives: __file__ = a parameter, os.path.realpath(__file__) = the path it resolves to (absolute, without links, '.', '..'); os.path.dirname = all components but the last; "
+               "os.path.join(p, c..) with relative single-component names = append; os.path.abspath of an absolute path = textual normalisation ('.' dropped, '..' removes the component before it, '/..' = '/').  "
+               "CLOSED BUILDERS (C19_model_is_source_run_*_closed): the four run_* functions re-translated a second time (C19_RUN_*_CLOSED -> Generated/SrcOrchCmdClosed.v; proofs Proofs/C19Source_CmdClosed.v) with "
+               "get_main_nf_file() / get_repository_root() = calls of the translated helpers instead of the opaque word WMainNf; additional TRUSTED primitives: a path used as a command-line word = "
+               "Orchestrate.word_of_file root (WMainNf exactly for root/main.nf, where root is the checkout whose pipeline the model describes); check_call's cwd= is evaluated and not interpreted.  Every function "
+               "of the script is now translated.")
 
 KINDS = ["training", "test", "thetas", "dist", "selected", "advanced", "meta"]
 FILES = ["training.screen.h5", "test.screen.h5", "thetas_0.h5", "distance_matrix_chunk_0.h5", "selected_plate",
@@ -888,6 +956,123 @@ def gen(rng, tier):
     # examine on arbitrary trees
     for _ in range(300 if quick else 4000):
         yield dict(kind="examine", bs=rng.choice([0, 1, 1, 2, 2, 3, 4]), tree=rand_tree(rng))
+    # get_args on command lines built from plans: every option given / one missing / repeated, in any order, with the operator's extra
+    # words in between; then the same with bad values (not an int, not one of the choices, an option string without value)
+    for r in (False, True):
+        for f in GA_FLAGS + [None]:
+            plan = [["opt", g, GA_VALUES[g][1]] for g in GA_FLAGS if g != f]
+            if r:
+                plan.reverse()
+            yield dict(kind="get_args", plan=plan)
+            yield dict(kind="get_args", plan=plan + [["word", "-resume"], ["word", "--max_cpus"], ["word", "8"]])
+    for _ in range(150 if quick else 1500):
+        yield dict(kind="get_args", plan=ga_plan(rng))
+    for _ in range(100 if quick else 1000):
+        yield dict(kind="get_args", plan=ga_plan(rng, errors=0.5))
+    for _ in range(40 if quick else 300):
+        yield dict(kind="get_args", plan=ga_plan(rng, required=False, errors=0.2))
+    # spellings outside the model (it answers 90): run for the record, not compared
+    for w in GA_UNMODELLED_WORDS:
+        plan = ga_plan(rng)
+        plan.insert(rng.randint(0, len(plan)), ["word", w])
+        yield dict(kind="get_args", plan=plan, unmodelled=True)
+    for v in GA_UNMODELLED_INTS:
+        yield dict(kind="get_args", plan=[["opt", g, v if g == "--batch-size" else GA_VALUES[g][0]] for g in GA_FLAGS], unmodelled=True)
+    # the path helpers: the script where /repo keeps it, and copies of it in scratch checkouts of several depths / directory names,
+    # loaded through its real path, through a symbolic link to its directory or to the file, and through a path with ".." in it
+    yield dict(kind="paths", layout=None, via="direct")
+    for layout in ([], ["co"], ["a b", "my.repo"], ["x", "y", "z", "deep"]):
+        for via in ("direct", "dirlink", "filelink", "dotdot"):
+            yield dict(kind="paths", layout=layout, via=via)
+    yield dict(kind="paths", layout=["elsewhere"], via="direct", inner=["pipelines", "bin"], name="orchestrate.py")
+    yield dict(kind="paths", layout=["elsewhere"], via="dirlink", inner=["nextflow", "scripts", "old"], name="batchie.py")
+    # validate_initial_output_dir_and_get_result_files_as_dict on job directories of the initial step: EVERY subset of the seven
+    # published files (so each required file is missing in turn with all the others present, and in every combination), then
+    # the same with a required file lying at the wrong directory level (directly in the job directory: the glob is dir/*/name)
+    for mask in range(128):
+        yield dict(kind="validate_initial", step=[0, 0], pd=initial_pd(mask, rng), decoys=[])
+    for mask in ([127, 126, 125, 63, 124, 62, 61, 60, 0] if quick else range(128)):
+        for decoys in ([0], [1], [6], [0, 1, 6]):
+            yield dict(kind="validate_initial", step=rng.choice([[0, 0], [0, 0], [1, 0], [2, 3]]), pd=initial_pd(mask, rng), decoys=decoys)
+
+
+# get_args: command lines as PLANS - ("opt", option string, value) puts the two words, ("bare", option string) the option string
+# alone, ("word", w) one other word - so that what the parse must yield is known from the construction, not from a second parser
+GA_FLAGS = ["--screen", "--batch-size", "--mode", "--outdir"]
+GA_VALUES = {"--screen": ["exp.h5", "/data/screens/s 1.h5", "s", "", "x=y", "screen"],
+             "--outdir": ["out", "/tmp/o", "", "outdir", "a b"],
+             "--mode": ["retrospective", "prospective", "retrospective", "prospective", "next_plate", "Retrospective", "", "retro"],
+             "--batch-size": ["1", "2", "3", "10", "007", "0", "4", "abc", "1.5", "", "1e3", "0x10"]}
+GA_WORDS = ["-resume", "-profile", "docker", "--max_cpus", "8", "-with-report", "--name", "x", "foo=1", "", "-N", "-bg", "--n_chains", "a b"]
+# spellings of argparse the model does not represent (Orchestrate.unmodelled_word / convert_arg): the model answers 90
+GA_UNMODELLED_WORDS = ["--mode=retrospective", "--outdir=o", "--scr", "--out", "--", "-", "-h", "--help", "--he", "-1", "-.5", "--x y", "--max_cpus=8", "-hx"]
+GA_UNMODELLED_INTS = ["-1", "+3", "1_0", " 5", "\u0665"]
+
+
+def ga_plan(rng, required=True, errors=0.0):
+    plan = []
+    flags = list(GA_FLAGS)
+    if not required or rng.random() < 0.15:
+        flags = [f for f in flags if rng.random() < 0.75]
+    elif rng.random() < 0.5:
+        flags.remove("--batch-size")
+    flags += [rng.choice(GA_FLAGS) for _ in range(rng.choice([0, 0, 0, 1, 2]))]      # repeated options: the last one counts
+    rng.shuffle(flags)
+    for f in flags:
+        vals = GA_VALUES[f]
+        good = {"--mode": 4, "--batch-size": 7}.get(f, len(vals))
+        v = rng.choice(vals) if rng.random() < errors else rng.choice(vals[:good])
+        plan.append(["opt", f, v])
+    for _ in range(rng.choice([0, 0, 1, 2, 3, 5])):
+        plan.insert(rng.randint(0, len(plan)), ["word", rng.choice(GA_WORDS)])
+    if rng.random() < errors / 2:
+        plan.insert(rng.randint(0, len(plan)), ["bare", rng.choice(GA_FLAGS)])
+    return plan
+
+
+def ga_argv(plan):
+    out = []
+    for it in plan:
+        out += [it[1], it[2]] if it[0] == "opt" else [it[1]]
+    return out
+
+
+def ga_expect(plan):
+    """what the parse must yield, from the construction: ("exit",) or ("ok", {dest: value}, [remaining words])"""
+    argv = ga_argv(plan)
+    pos = 0
+    given, rest = {}, []
+    for it in plan:
+        if it[0] == "word":
+            rest.append(it[1])
+            pos += 1
+            continue
+        if it[0] == "bare":
+            # an option string with no value of its own: it takes the next word unless there is none or that one starts with "-"
+            nxt = argv[pos + 1] if pos + 1 < len(argv) else None
+            return ("unknown",) if nxt is not None and not nxt.startswith("-") else ("exit",)
+        f, v = it[1], it[2]
+        pos += 2
+        if v.startswith("-"):
+            return ("exit",)
+        if f == "--batch-size":
+            if not (v.isascii() and v.isdigit()):
+                return ("exit",)
+            v = int(v)
+        if f == "--mode" and v not in MODES:
+            return ("exit",)
+        given[f[2:].replace("-", "_")] = v
+    if any(k not in given for k in ("screen", "mode", "outdir")):
+        return ("exit",)
+    given.setdefault("batch_size", 1)
+    return ("ok", given, rest)
+
+
+def initial_pd(mask, rng):
+    """plate directory contents [training?, test, thetas, dist, selected?, advanced?, meta?] with file k present iff bit k of mask"""
+    has = [bool(mask >> k & 1) for k in range(7)]
+    return [opt([0, 1, 2] if has[0] else None), int(has[1]), int(has[2]), int(has[3]), opt(0 if has[4] else None),
+            opt([1, 2] if has[5] else None), opt(rng.randint(0, 5) if has[6] else None)]
 
 
 def rand_tree(rng):
@@ -1022,6 +1207,163 @@ def run(desc):
             + (["two-digit-index"] if any(i >= 10 for i, _ in tree) else []) + (["named-dir"] if impl[0] == 1 else [])
         wire = [0, probed_fixed(), bs, [[i, [[j, pd + [[]]] for j, pd in pls]] for i, pls in tree]]
         return dict(wire=wire, impl=impl, pred=None, features=feats)
+    if k == "get_args":
+        plan = desc["plan"]
+        argv = ga_argv(plan)
+        mod = load_script()
+        saved, saved_err, saved_out = sys.argv, sys.stderr, sys.stdout
+        pred = None
+        exp = ga_expect(plan) if not desc.get("unmodelled") else ("unknown",)
+        try:
+            sys.argv = ["batchie.py"] + argv
+            sys.stderr = sys.stdout = open(os.devnull, "w")      # argparse prints its usage / help text
+            try:
+                args, remaining = mod.get_args()
+                ns = vars(args)
+
+                def enc(v):
+                    return [0, common.s2l(v)] if isinstance(v, str) else [1, v] if isinstance(v, int) and not isinstance(v, bool) \
+                        else [2] if v is None else [9, repr(v)[:80]]
+                impl = [0, [[common.s2l(a), enc(v)] for a, v in ns.items()], [common.s2l(w) for w in remaining]]
+                # what main() does with it, said directly: the four attributes, of the types main() uses them at
+                if not (isinstance(ns.get("mode"), str) and ns["mode"] in MODES and isinstance(ns.get("batch_size"), int)
+                        and isinstance(ns.get("outdir"), str) and isinstance(ns.get("screen"), str)):
+                    pred = "get_args returned a namespace main() cannot work with (mode one of %s, batch_size an int, outdir and screen paths): %s" % (MODES, common.short(ns, 300))
+                elif exp[0] == "exit":
+                    pred = "the command line %s is accepted (%s); it lacks a required option or gives an option a bad value" % (argv, common.short(ns, 300))
+                elif exp[0] == "ok" and (ns != exp[1] or list(remaining) != exp[2]):
+                    pred = ("the command line %s gives %s and hands on %s; the options say %s (--batch-size defaults to 1) and the words that are "
+                            "not the script's own are %s" % (argv, common.short(ns, 300), remaining, exp[1], exp[2]))
+            except SystemExit as e:
+                impl = [1, 64] if e.code == 2 else [1, "SystemExit(%r)" % (e.code,)]
+                if exp[0] == "ok":
+                    pred = "the command line %s is rejected (exit status %r); it gives every required option a good value" % (argv, e.code)
+            finally:
+                sys.stderr.close()
+        finally:
+            sys.argv, sys.stderr, sys.stdout = saved, saved_err, saved_out
+        feats = ["get_args", "accepted" if impl[0] == 0 else "rejected"] + (["unmodelled-spelling", "trivial"] if desc.get("unmodelled") else []) \
+            + (["extra-words"] if any(it[0] == "word" for it in plan) else []) \
+            + (["default-batch-size"] if not any(it[1] == "--batch-size" for it in plan) else []) \
+            + (["repeated-option"] if len({it[1] for it in plan if it[0] == "opt"}) < sum(it[0] == "opt" for it in plan) else []) \
+            + (["trivial"] if not plan else [])
+
+        def cmp_args(m, i):
+            if isinstance(m, str):
+                return "model driver failure: " + m
+            if m == [1, 90]:
+                return None      # a spelling the model does not represent
+            return None if m == i else "values differ: model %s impl %s" % (common.short(m, 600), common.short(i, 600))
+        return dict(wire=[6, [common.s2l(w) for w in argv]], impl=impl, pred=pred, features=feats, cmp=cmp_args)
+    if k == "paths":
+        tmp = None
+        try:
+            if desc.get("layout") is None:
+                given = SCRIPT
+            else:
+                tmp = _tmpdir()
+                root = os.path.join(tmp, *desc["layout"])
+                sdir = os.path.join(root, *desc.get("inner", ["nextflow", "scripts"]))
+                os.makedirs(sdir)
+                real = os.path.join(sdir, desc.get("name", "batchie.py"))
+                shutil.copyfile(SCRIPT, real)
+                via = desc["via"]
+                if via == "dirlink":
+                    os.symlink(sdir, os.path.join(tmp, "link"))
+                    given = os.path.join(tmp, "link", os.path.basename(real))
+                elif via == "filelink":
+                    os.makedirs(os.path.join(tmp, "other", "place"))
+                    given = os.path.join(tmp, "other", "place", "run.py")
+                    os.symlink(real, given)
+                elif via == "dotdot":
+                    given = os.path.join(sdir, "..", os.path.basename(sdir), os.path.basename(real))
+                else:
+                    given = real
+            spec = importlib.util.spec_from_file_location("batchie_orchestrator_c19_paths", given)
+            mod = importlib.util.module_from_spec(spec)
+            spec.loader.exec_module(mod)
+            mod.logger.disabled = True
+            resolved = os.path.realpath(given)
+            got = [mod.get_script_location(), mod.get_nextflow_dir(), mod.get_base_config(), mod.get_repository_root(), mod.get_main_nf_file()]
+
+            def comps(q):
+                if not (isinstance(q, str) and q.startswith("/")):
+                    raise ValueError("not an absolute path: %r" % (q,))
+                return [common.s2l(c) for c in q[1:].split("/")] if q != "/" else []
+            impl = [comps(q) for q in got]
+            # said directly: the repository root is the directory the script lies in at <root>/<d1>/<d2>/<file>, main.nf and
+            # nextflow.config are directly in it, the nextflow directory is <root>/<d1>
+            pred = None
+            loc, nfd, cfgp, rootp, mainp = got
+            rel = resolved.split("/")[-3:]
+            if not (os.path.isdir(rootp) and os.path.exists(os.path.join(rootp, *rel)) and os.path.samefile(os.path.join(rootp, *rel), resolved)):
+                pred = "get_repository_root() = %s is not the directory that holds the script at %s" % (rootp, "/".join(rel))
+            elif mainp != os.path.join(rootp, "main.nf") or os.path.dirname(mainp) != os.path.realpath(rootp):
+                pred = "get_main_nf_file() = %s is not main.nf in the repository root %s" % (mainp, rootp)
+            elif cfgp != os.path.join(rootp, "nextflow.config"):
+                pred = "get_base_config() = %s is not nextflow.config in the repository root %s" % (cfgp, rootp)
+            elif loc != os.path.dirname(resolved) or nfd != os.path.dirname(loc):
+                pred = "get_script_location() / get_nextflow_dir() = %s / %s for the script %s" % (loc, nfd, resolved)
+            elif desc.get("layout") is None and not (os.path.isfile(mainp) and os.path.isfile(cfgp)
+                                                     and os.path.samefile(rootp, common.REPO)):
+                pred = "in the repository itself main.nf / nextflow.config do not exist where the helpers say: %s %s" % (mainp, cfgp)
+            wire = [7, comps(resolved)]
+        finally:
+            if tmp:
+                shutil.rmtree(tmp, ignore_errors=True)
+        feats = ["paths", "via:" + desc["via"]] + (["the-repository"] if desc.get("layout") is None else ["scratch-checkout"]) \
+            + (["other-directory-names"] if desc.get("inner") else [])
+        return dict(wire=wire, impl=impl, pred=pred, features=feats)
+    if k == "validate_initial":
+        (i, j), pd, decoys = desc["step"], desc["pd"], desc.get("decoys", [])
+        root = _tmpdir()
+        try:
+            write_tree(root, [[i, [[j, pd]]]])
+            d = os.path.join(root, "iter_%d" % i, "plate_%d" % j)
+            for kk in decoys:      # a file of the right name at the wrong level: dir/<file> instead of dir/<name>/<file>
+                with open(os.path.join(d, FILES[kk]), "w") as f:
+                    f.write(json.dumps({"n_unobserved_plates": 77}) if kk == 6 else "{}")
+            mod = load_script()
+            r0 = Runner.__new__(Runner)
+            r0.out, r0.scr_dir = root, None
+            want_files = {0: os.path.join(d, NAME, FILES[0]), 1: os.path.join(d, NAME, FILES[1])}
+            pred = None
+            try:
+                res = mod.validate_initial_output_dir_and_get_result_files_as_dict(d)
+                if res is None:
+                    impl = [0, []]
+                    if pd[0] and pd[6]:
+                        pred = ("returned None although training.screen.h5 and screen_metadata.json exist (test.screen.h5 %s)"
+                                % ("exists" if pd[1] else "is missing"))
+                elif isinstance(res, dict) and sorted(res) == ["screen_metadata", "test_screen", "training_screen"] \
+                        and isinstance(res["screen_metadata"], dict) and "n_unobserved_plates" in res["screen_metadata"]:
+                    impl = [0, [[r0.sp(res["test_screen"]), r0.sp(res["training_screen"]), res["screen_metadata"]["n_unobserved_plates"]]]]
+                    missing = [FILES[kk] for kk in (1, 0, 6) if not pd[kk]]
+                    if missing:
+                        pred = "accepted an initial directory in which %s is missing: returned %s" % (", ".join(missing), common.short(res, 300))
+                    elif res["test_screen"] != want_files[1] or res["training_screen"] != want_files[0] \
+                            or not all(os.path.isfile(res[x]) for x in ("test_screen", "training_screen")):
+                        pred = "the returned dict does not name this directory's own test / training screen: %s" % common.short(res, 300)
+                    elif res["screen_metadata"] != {"n_unobserved_plates": pd[6][0]}:
+                        pred = "the returned screen_metadata is not the content of this directory's screen_metadata.json: %s" % common.short(res, 300)
+                else:
+                    impl = [9, common.short(res, 200)]
+                    pred = "returned neither None nor the three-key dict: %s" % common.short(res, 300)
+            except IndexError:
+                impl = [1, 98]
+                if not (pd[0] and pd[6] and not pd[1]):
+                    pred = "IndexError although %s" % ("all three required files exist" if pd[0] and pd[1] and pd[6] else
+                                                       "training.screen.h5 or screen_metadata.json is missing (that is the None return)")
+            except Exception as e:      # noqa: BLE001 - any other exception is not among the function's behaviours
+                impl = [1, type(e).__name__]
+                pred = "raised %s: %s" % (type(e).__name__, str(e)[:200])
+        finally:
+            shutil.rmtree(root, ignore_errors=True)
+        missing = [KINDS[kk] for kk in (0, 1, 6) if not pd[kk]]
+        feats = ["validate_initial"] + (["complete"] if not missing else ["missing:" + "+".join(missing)]) \
+            + (["wrong-level-decoy"] if decoys else []) + (["IndexError"] if impl == [1, 98] else []) \
+            + (["trivial"] if not any(pd[kk] for kk in range(7)) and not decoys else [])
+        return dict(wire=[5, [i, j], pd + [[]]], impl=impl, pred=pred, features=feats)
     raise ValueError(k)
 
 
